@@ -49,7 +49,8 @@ def frag_templates(F):
                 t = []
                 for i, ln in enumerate(comp):
                     if g is not None and i == g:
-                        t.append((bytes([0x80 | F.get('ctrl', 9), 0]), 0))
+                        cl = F.get('ctrl_len', 0)
+                        t.append((bytes([0x80 | F.get('ctrl', 9), cl]), cl))
                     b0 = (op if i == 0 else 0) | (0x80 if i == nf - 1 else 0)
                     t.append((bytes([b0, ln]), ln))
                 out.append(t)
